@@ -249,6 +249,26 @@ func runC02(ctx *core.Ctx, idx int) *core.Result {
 			extra = append(extra, "undeclared-name-"+order)
 		}
 		semBatchSeq(ctx, idx, res, seq, srcs, extra, idx%16 == 2, "C02")
+		if idx%4 == 2 {
+			// an expression metavariable does not stand for 'key: value': go/ast types it as an expression, Go does not
+			kv := &gen.Change{Kind: "expr", Schema: "c02-keyed-element-is-not-an-expression", Meta: mv2("x", "expression"),
+				Lines: []gen.Line{gen.L('-', "wrapKV(T{«x»})"), gen.L('+', "wrapKV2(«x»)")}}
+			if r.Intn(2) == 0 {
+				kv.Lines = []gen.Line{gen.L('-', "wrapKV(T{‹1:elts›, «x»})"), gen.L('+', "wrapKV2(«x», ‹1:elts›)")}
+			}
+			var ksrcs, kextra []string
+			for f := 0; f < 3; f++ {
+				var plants []gen.Plant
+				for p := 0; p < 2+r.Intn(4); p++ {
+					el := []string{"fld: " + g.Atom(), g.Atom(), g.Expr(1, nil), "3: " + g.Atom(), "k: v"}[r.Intn(5)]
+					pre := []string{"", "", g.Atom() + ", ", "kk: 1, "}[r.Intn(4)]
+					plants = append(plants, gen.Plant{Kind: "expr", Text: "wrapKV(T{" + pre + el + "})"})
+				}
+				ksrcs = append(ksrcs, g.File(gen.FileOpts{Plants: plants}))
+				kextra = append(kextra, "keyed-element-probe")
+			}
+			semBatch(ctx, idx, res, kv, ksrcs, kextra, idx%16 == 2, "C02")
+		}
 	case 3:
 		leakCase(ctx, idx, res, g)
 	}
